@@ -215,6 +215,11 @@ class Gen:
             f["nested"] = self.fixture(nest - 1)
         if f["setup_fail"] or f["nested"] is not None:
             f["details_fail"] = False       # the fixtures library itself calls getDetails() while unwinding a failed setUp
+        if self.o.get("fixture_kbi") and nest == 1 and f["nested"] is None and self.draw(st.integers(0, 7)) == 0:
+            # the fixture's _setUp is interrupted: the fixtures library cleans the fixture up and lets the
+            # KeyboardInterrupt through bare, which takes useFixture's second except arm
+            f["setup_fail"] = "kbi"
+            f["details_fail"] = False
         return f
 
     def stage(self, where, p_raise):
@@ -453,6 +458,11 @@ class Model:
             else:
                 ok = False
                 errors += sub_errors
+        if ok and f["setup_fail"] == "kbi":
+            for kind, x in reversed(own_cleanups):
+                self.fixture_cleanup_item(kind, x, [])      # (what its own cleanups raise is dropped by the fixtures library here)
+            errors.append({"kind": "kbi", "i": f["i"]})
+            return False
         if ok and f["setup_fail"]:
             ok = False
             errors.append({"kind": "error", "i": f["i"]})
@@ -486,6 +496,8 @@ class Model:
             return True
         for e in errors:
             self.note(e["kind"], e["i"], stage)
+        if f["setup_fail"] == "kbi":
+            return False          # nothing of the fixture is gathered on this path
         self.fixture_details.append((f, "failed"))
         for n in f["details"]:
             self.gen_items.append({"type": "fixture-detail", "marker": "FX%d/%s/" % (f["i"], n), "base": n, "t": len(self.log),
@@ -820,6 +832,8 @@ def build_case(prog, live, result_log=None, runner=None):
                 self.addCleanup(self._clean)
                 if f["nested"] is not None:
                     self.useFixture(make_fixture(f["nested"]))
+                if f["setup_fail"] == "kbi":
+                    raise KeyboardInterrupt("MARK-%d-" % f["i"])
                 if f["setup_fail"]:
                     raise RuntimeError("MARK-%d-" % f["i"])
 
